@@ -204,6 +204,52 @@ def _perfreq(name, fn):
 dir_per_f = _perfreq("mean_direction_per_frequency", direction_of)
 spread_per_f = _perfreq("mean_spread_per_frequency", spread_of)
 
+def _bounded_rotation_laws(tier, seed):
+    """rotation by whole bins shifts every direction parameter by that angle (mod 360), mirroring negates it; spread, Hm0,
+    periods and peak frequency are unchanged (the cyclic-shift lemmas over the directional sums are not mechanised)"""
+    import numpy as np
+    from ocean_science_utilities.wavespectra.spectrum import create_2d_spectrum
+    rng = np.random.default_rng(seed + 17)
+    fails, samples, evals = [], [], 0
+    Ns = [8, 36] if tier == "quick" else [8, 12, 24, 36, 72, 144]
+    f = np.array([0.04, 0.06, 0.09, 0.12, 0.16, 0.22, 0.3, 0.41, 0.55])
+
+    def wrapd(x):
+        return (x + 180.0) % 360.0 - 180.0
+    for N in Ns:
+        d = np.linspace(0, 360, N, endpoint=False)
+        E = rng.random((2, len(f), N)) * (rng.random((2, len(f), N)) > 0.3)
+        E[:, 3, :] += 2.0 * np.cos(np.radians(d - rng.uniform(0, 360)) / 2) ** 6      # a dominant peak
+
+        def spec(Ea):
+            return create_2d_spectrum(f, d, Ea, np.arange(2) * 3600.0, np.zeros(2), np.zeros(2), depth=np.full(2, np.inf))
+
+        def params(s):
+            return {"md": s.mean_direction().values, "pd": s.peak_direction().values, "mdb": s.mean_direction(0.05, 0.35).values,
+                    "ms": s.mean_directional_spread().values, "ps": s.peak_directional_spread().values, "hm0": s.hm0().values,
+                    "tm01": s.tm01().values, "tm02": s.tm02().values, "fp": s.peak_frequency().values}
+        base = params(spec(E))
+        ks = list(range(N)) if (tier != "quick" or N <= 8) else [0, 1, 5, N // 2, N - 1]
+        for k in ks + ["mirror"]:
+            evals += 1
+            if k == "mirror":
+                idx, sgn, shift = (-np.arange(N)) % N, -1.0, 0.0
+            else:
+                idx, sgn, shift = (np.arange(N) - k) % N, 1.0, k * 360.0 / N
+            cur = params(spec(E[:, :, idx]))
+            ok = all(np.all(np.abs(wrapd(cur[q] - (sgn * base[q] + shift))) < 1e-6) for q in ("md", "pd", "mdb"))
+            ok = ok and all(np.allclose(cur[q], base[q], rtol=1e-9, atol=1e-9) for q in ("ms", "ps", "hm0", "tm01", "tm02", "fp"))
+            ok = ok and np.all(cur["md"] >= -180 - 1e-9) and np.all(cur["md"] <= 180 + 1e-9) and np.all(cur["ms"] >= 0) and np.all(cur["ms"] <= 81.03)
+            if not ok:
+                fails.append({"N": N, "k": k, "what": "direction parameters do not rotate / mirror with the sea, or an invariant parameter changed"})
+        if len(samples) < 2:
+            samples.append({"N": N, "rotations": [str(x) for x in ks[:6]]})
+    return {"evaluations": evals, "distinct": evals, "failures": fails[:6], "samples": samples,
+            "domain": f"uniform direction grids N in {Ns}, random non-negative 2D spectra with zero bins, rotations k and the mirror image; mean/peak/band direction, spread, Hm0, Tm01, Tm02, fp"}
+
+
+BOUNDED = [Bounded("rotation_and_mirror_laws", _bounded_rotation_laws)]
+
 CONTRACTS = [mean_direction_static, spread_static, mean_a1, mean_b1, mean_a2, mean_b2, mean_direction, mean_spread, dir_per_f, spread_per_f]
 TRUSTED = ["xarray library contracts of pyvc/models/xr.py; np.trapezoid = trapezoid rule along the last axis",
            "arctan2 in [-pi, pi] and sqrt facts of the A-table; pi between 3.14159265 and 3.14159266"]
